@@ -37,16 +37,16 @@ def lanes(prop, quick_cfgs, thorough_cfgs, engine="e_lanes", extra=None):
 
 
 PLAN = {
-    "C01": lanes("C01", ["sse2", "scalar", "fma"], ["coresimd", "libm", "dbg"]),
-    "C02": lanes("C02", ["sse2", "scalar"], ["coresimd", "libm", "fma"], engine="e_geom"),
-    "C03": lanes("C03", ["sse2", "scalar"], ["coresimd", "fma"], engine="e_geom"),
-    "C04": lanes("C04", ["sse2", "scalar"], ["coresimd", "fma"], engine="e_geom"),
-    "C05": lanes("C05", ["sse2", "scalar"], ["coresimd"], engine="e_geom"),
-    "C06": lanes("C06", ["sse2", "scalar"], ["coresimd"], engine="e_geom"),
-    "C09": lanes("C09", ["sse2", "scalar"], ["coresimd", "libm"], engine="e_geom"),
-    "C10": lanes("C10", ["sse2", "scalar"], ["coresimd"], engine="e_geom"),
-    "C11": lanes("C11", ["sse2", "scalar"], ["coresimd"], engine="e_geom"),
-    "C12": lanes("C12", ["sse2", "scalar"], ["coresimd", "libm"], engine="e_geom"),
+    "C01": lanes("C01", ["sse2", "scalar", "fma", "libm"], ["coresimd", "dbg"]),
+    "C02": lanes("C02", ["sse2", "scalar", "coresimd"], ["libm", "fma"], engine="e_geom"),
+    "C03": lanes("C03", ["sse2", "scalar", "coresimd"], ["fma"], engine="e_geom"),
+    "C04": lanes("C04", ["sse2", "scalar", "coresimd"], ["fma"], engine="e_geom"),
+    "C05": lanes("C05", ["sse2", "scalar", "coresimd"], [], engine="e_geom"),
+    "C06": lanes("C06", ["sse2", "scalar", "coresimd"], [], engine="e_geom"),
+    "C09": lanes("C09", ["sse2", "scalar", "coresimd"], ["libm"], engine="e_geom"),
+    "C10": lanes("C10", ["sse2", "scalar", "coresimd"], [], engine="e_geom"),
+    "C11": lanes("C11", ["sse2", "scalar", "coresimd"], [], engine="e_geom"),
+    "C12": lanes("C12", ["sse2", "scalar", "coresimd"], ["libm"], engine="e_geom"),
     "C07": {"runs": [
         {"engine": "e_api", "config": c, "mode": "trace", "tiers": t, "shards": {"quick": 1, "thorough": 1}, "args": ["--trace", "{wdir}/trace.{config}.bin"]}
         for c, t in (("sse2", Q), ("scalar", Q), ("fma", Q), ("coresimd", T), ("native", T))
